@@ -69,6 +69,20 @@ func (x *g) genService(i int, used map[string]bool) {
 			sv.Files = append(sv.Files, &spec.FileServer{Path: fmt.Sprintf("/doc%d.json", i), File: "gen/http/openapi.json"})
 		}
 		x.s.AddFeature("file-server")
+		// a single file served on the very path a non-GET endpoint uses: both operations belong to one path item
+		if x.chance(1, 2) {
+			for _, m := range sv.Methods {
+				if m.HTTP == nil || len(m.HTTP.Routes) == 0 {
+					continue
+				}
+				r := m.HTTP.Routes[0]
+				if r.Verb != "GET" && r.Verb != "HEAD" && r.Path != "" && !strings.Contains(r.Path, "{") {
+					sv.Files = append(sv.Files, &spec.FileServer{Path: r.Path, File: "public/index.html"})
+					x.s.AddFeature("file-server-shares-endpoint-path")
+					break
+				}
+			}
+		}
 	}
 	x.s.Services = append(x.s.Services, sv)
 }
@@ -207,6 +221,19 @@ func (x *g) genMethod(sv *spec.Service, j int, used map[string]bool) {
 		case 2:
 			e.Timeout, e.Temporary, e.Fault = x.r.Bool(), x.r.Bool(), x.r.Bool()
 			x.s.AddFeature("error-flags")
+		case 3:
+			if x.o.Profile == "errors" {
+				e.Type = &spec.Type{Kind: spec.Array, Elem: &spec.Attr{Type: &spec.Type{Kind: x.r.Pick(spec.String, spec.Int)}}}
+				x.s.AddFeature("error-array")
+			}
+		}
+		// two errors with different inline (non user) types: they will share a status below
+		if x.o.Profile == "errors" && k == 1 && x.chance(1, 4) {
+			m.Errors[0].Type = &spec.Type{Kind: spec.String}
+			m.Errors[0].Timeout, m.Errors[0].Temporary, m.Errors[0].Fault = false, false, false
+			e.Type = &spec.Type{Kind: spec.Array, Elem: &spec.Attr{Type: &spec.Type{Kind: spec.String}}}
+			e.Timeout, e.Temporary, e.Fault = false, false, false
+			x.s.AddFeature("errors-inline-types-pair")
 		}
 		m.Errors = append(m.Errors, e)
 		x.s.AddFeature("method-error")
@@ -460,7 +487,7 @@ func (x *g) genHTTP(sv *spec.Service, m *spec.Method, idx int) {
 	// trailing catch-all wildcard {*name}: a plain string attribute of an inline object payload that would
 	// otherwise travel in the body; a later method of the same service may share the pattern under
 	// another verb with its own wildcard name
-	avoidVerb := ""
+	var avoid map[string]bool
 	if p := m.Payload; p != nil && p.Type.Kind == spec.Object && !strings.Contains(path, "{") && h.Body == "" &&
 		(x.chance(1, 6) || (x.o.Profile == "http-loc" && x.chance(1, 2)) || x.catchAll[sv.Name] != nil && x.chance(2, 3)) {
 		has := false
@@ -482,9 +509,9 @@ func (x *g) genHTTP(sv *spec.Service, m *spec.Method, idx int) {
 		}
 		for _, a := range p.Type.Attrs {
 			if a.Type.Kind == spec.String && a.Val.Empty() && !a.HasDef && a.Sec == "" && LocIsBody(h, a.Name) {
-				if prev := x.catchAll[sv.Name]; prev != nil && x.chance(2, 3) {
+				if prev := x.catchAll[sv.Name]; prev != nil && len(prev.verbs) < 3 && x.chance(2, 3) {
 					path = prev.prefix
-					avoidVerb = prev.verb
+					avoid = prev.verbs
 					x.s.AddFeature("path-catchall-shared-pattern")
 				}
 				x.lastPrefix = path
@@ -505,19 +532,31 @@ func (x *g) genHTTP(sv *spec.Service, m *spec.Method, idx int) {
 	} else if x.chance(1, 3) {
 		verb = x.r.Pick("DELETE", "POST", "PUT")
 	}
-	if verb == avoidVerb {
+	if avoid[verb] {
 		for _, alt := range []string{"PUT", "PATCH", "POST", "DELETE"} {
-			if alt != avoidVerb && (hasBody || alt == "DELETE" || alt == "PUT") {
+			if !avoid[alt] && (hasBody || alt == "DELETE" || alt == "PUT") {
 				verb = alt
 				break
 			}
 		}
 	}
-	if strings.Contains(path, "{*") && avoidVerb == "" {
-		if x.catchAll == nil {
-			x.catchAll = map[string]*catchAllInfo{}
+	if avoid[verb] {
+		for _, alt := range []string{"POST", "PUT", "PATCH", "DELETE", "GET"} {
+			if !avoid[alt] {
+				verb = alt
+				break
+			}
 		}
-		x.catchAll[sv.Name] = &catchAllInfo{prefix: x.lastPrefix, verb: verb}
+	}
+	if strings.Contains(path, "{*") {
+		if avoid != nil {
+			avoid[verb] = true
+		} else {
+			if x.catchAll == nil {
+				x.catchAll = map[string]*catchAllInfo{}
+			}
+			x.catchAll[sv.Name] = &catchAllInfo{prefix: x.lastPrefix, verbs: map[string]bool{verb: true}}
+		}
 	}
 	h.Routes = append(h.Routes, spec.Route{Verb: verb, Path: path})
 	if !strings.Contains(path, "{*") && (x.chance(1, 6) || (x.o.Profile == "openapi" && x.chance(1, 2))) {
@@ -544,7 +583,8 @@ func (x *g) genHTTP(sv *spec.Service, m *spec.Method, idx int) {
 		m.HTTP.Errors = append(m.HTTP.Errors, he)
 	}
 	// several errors on one status (goa-error header disambiguates)
-	if len(m.HTTP.Errors) >= 2 && x.chance(1, 2) {
+	inlinePair := len(m.Errors) >= 2 && m.Errors[0].Type != nil && m.Errors[1].Type != nil && m.Errors[0].Type.Kind == spec.String && m.Errors[1].Type.Kind == spec.Array
+	if len(m.HTTP.Errors) >= 2 && (x.chance(1, 2) || inlinePair) {
 		m.HTTP.Errors[1].Status = m.HTTP.Errors[0].Status
 		x.s.AddFeature("errors-share-status")
 	}
@@ -628,9 +668,12 @@ func (x *g) genResponses(sv *spec.Service, m *spec.Method) {
 				if a.HasDef {
 					x.s.AddFeature("response-header-default")
 				}
-			case c == 2 && prim && x.chance(1, 2):
+			case prim && (c == 2 && x.chance(1, 2) || len(r.Cookies) > 0 && x.chance(1, 2) || x.o.Profile == "http-loc" && c == 3):
 				r.Cookies = append(r.Cookies, spec.Loc{Attr: a.Name})
 				x.s.AddFeature("response-cookie")
+				if len(r.Cookies) > 1 {
+					x.s.AddFeature("response-cookies-several")
+				}
 			default:
 				bodyLeft++
 			}
@@ -693,7 +736,10 @@ func (x *g) genGRPC(sv *spec.Service, m *spec.Method) {
 	x.s.AddFeature("grpc")
 }
 
-type catchAllInfo struct{ prefix, verb string }
+type catchAllInfo struct {
+	prefix string
+	verbs  map[string]bool // verbs already mounted on the shared pattern
+}
 
 // LocIsBody reports whether an attribute is not mapped to path/query/header/cookie.
 func LocIsBody(h *spec.HTTP, attr string) bool {
